@@ -20,6 +20,7 @@ def check(ctx):
     _tzr.check_offset_fields(ctx, rep)
     nic = _hc.check_int_casts(ctx, rep)
     rep.floor("lookup-free UTC results in the Zinc reader", nu, 1)
+    _hc.check_nothing_dropped(ctx, rep, "encoding/zinc/encode.rs")
     nmg = _hc.check_member_guards(ctx, rep)
     rep.floor("Hayson member / element write sites", nmg, 38)
     n1 = streams.check_reader_calls(ctx, rep)
